@@ -541,6 +541,9 @@ package vm
 //@ requires [C01] arity: len(args) >= len(funcExpr.Params)
 // C04: every invocation runs the body in a FRESH child of the captured (defining) scope and binds the parameters there
 //@ callsite (*runInfoStruct).runSingleStmt * [C04] freshscope: fresh(arg0.env) && arg0.env.parent == envFunc && arg0.stmt == funcExpr.Stmt && arg0.options == options && arg0.ctx == ctx
+// C09: every invocation has its OWN, initially empty list of deferred calls (never storage shared with other invocations of the same
+// function value - nested invocations would overwrite each other's registrations)
+//@ callsite (*runInfoStruct).runSingleStmt * [C09] owndefers: len(arg0.defers) == 0 && (arg0.defers == nil || fresh(base(arg0.defers)))
 //@ callsite (*Env).DefineValue * [C04] paramscope: fresh(arg0) && arg0.parent == envFunc && arg2 == args[i]
 //@ loop 0 invariant runInfo.env != nil && polls == old(polls) && fired == old(fired) && fresh(runInfo.env) && runInfo.env.parent == envFunc
 
